@@ -26,6 +26,8 @@ import (
 //	failset s       the next Set of source s (-1: of any connector) inside a tx fails
 //	failtx          the next NewTransaction fails
 //	sendfail s n    the next n stream sends of source s fail
+//	holdsend s      the next ack send of source s parks inside stream.Send (plugin not consuming)
+//	releasesend s   the parked send of source s goes on
 //	teardown s      Source.Teardown
 type Step struct {
 	Op     string `json:"op"`
@@ -220,7 +222,7 @@ func (w *World) await(done <-chan struct{}, limit time.Duration) bool {
 		}
 		pause(20 * time.Microsecond)
 		now := time.Now()
-		if w.DB.InFlight() > 0 && w.DB.Parked() > 0 {
+		if (w.DB.InFlight() > 0 && w.DB.Parked() > 0) || w.sendParked() {
 			if blockedSince.IsZero() {
 				blockedSince = now
 			} else if now.Sub(blockedSince) > 1500*time.Microsecond {
@@ -248,6 +250,25 @@ func pause(d time.Duration) {
 	for time.Since(t0) < d {
 		runtime.Gosched()
 	}
+}
+
+func (w *World) sendParked() bool {
+	for _, sc := range w.srcs {
+		if sc.plug.SendParked() {
+			return true
+		}
+	}
+	return false
+}
+
+func (w *World) releaseSends() bool {
+	any := false
+	for _, sc := range w.srcs {
+		if sc.plug.ReleaseSend() {
+			any = true
+		}
+	}
+	return any
 }
 
 // settle waits until the log has stopped growing for a moment.
@@ -462,6 +483,14 @@ func (w *World) Do(st Step) {
 		if st.S >= 0 && st.K >= 1 && st.K <= 12 {
 			w.srcs[st.S].plug.SendFail(st.K)
 		}
+	case "holdsend":
+		if st.S >= 0 && !w.srcs[st.S].tdStarted {
+			w.srcs[st.S].plug.HoldNextSend()
+		}
+	case "releasesend":
+		if st.S >= 0 {
+			w.srcs[st.S].plug.ReleaseSend()
+		}
 	case "teardown":
 		if st.S >= 0 {
 			w.teardown(st.S)
@@ -490,7 +519,7 @@ func (w *World) Finish() []Event {
 		return false
 	}
 	for time.Now().Before(deadline) {
-		if w.DB.Release(true, false) {
+		if w.DB.Release(true, false) || w.releaseSends() {
 			continue
 		}
 		if !pendingOps() && w.DB.InFlight() == 0 {
@@ -503,7 +532,7 @@ func (w *World) Finish() []Event {
 		w.teardown(s)
 	}
 	for time.Now().Before(deadline) {
-		if w.DB.Release(true, false) {
+		if w.DB.Release(true, false) || w.releaseSends() {
 			continue
 		}
 		if !pendingOps() && w.DB.InFlight() == 0 {
